@@ -960,6 +960,85 @@ def run_history(ctx: fw.Ctx, env: Env, D: dict[str, list[fw.Case]], spec: dict, 
 # handler run to completion exactly once in that process — whatever follows the listing batch in the stream, with and
 # without settings.queueing.worker_limit.
 
+class FakeApi:
+    """LIST and WATCH of one resource, as kopf._cogs.clients.api.get / api.stream see them (the HTTP layer itself is not
+    exercised).  An event log with resource versions; a watch serves everything newer than `resourceVersion`, then waits.
+    Faults: the next `list_failures` LIST requests fail; `fault('410')` makes the open watch answer ERROR 410 (kopf re-lists);
+    `fault('disconnect')` ends the open watch (kopf re-watches from the last seen version)."""
+
+    def __init__(self, W: 'World', uids: list[str], fail_kind: str) -> None:
+        self.W, self.uids, self.fail_kind = W, uids, fail_kind
+        self.log: list[tuple[int, dict]] = []
+        self.list_failures = 0
+        self.after_list: Any = None
+        self.pending_fault: str | None = None
+        self.wake = asyncio.Event()
+        self.served: list[str] = []
+
+    def put_nowait(self, ev: dict) -> None:             # a write to an object (kopf's own patch or a third party)
+        self.log.append((int(ev['object']['metadata']['resourceVersion']), ev))
+        self.wake.set()
+
+    def fault(self, kind: str) -> None:
+        self.pending_fault = kind
+        self.wake.set()
+
+    async def get(self, *, url: str, settings: Any, logger: Any, **_: Any) -> Any:
+        import aiohttp
+        from kopf._cogs.clients import errors
+        await asyncio.sleep(0)
+        if self.list_failures > 0:
+            self.list_failures -= 1
+            self.served.append(f'LIST-fails:{self.fail_kind}')
+            if self.fail_kind == 'timeout':
+                raise asyncio.TimeoutError()
+            if self.fail_kind == '429':
+                raise errors.APITooManyRequestsError('too many requests', status=429, headers={})
+            raise aiohttp.ClientConnectionError('connection refused')
+        items = [copy.deepcopy(self.W.objs[u]) for u in self.uids if self.W.objs[u] is not None]
+        rsp = {'kind': 'KopfExampleList', 'apiVersion': 'kopf.dev/v1', 'metadata': {'resourceVersion': str(self.W.rv)}, 'items': items}
+        self.served.append(f'LIST:{len(items)}')
+        hook, self.after_list = self.after_list, None
+        if hook is not None:
+            hook()                                       # writes that land right after the snapshot was taken
+        return rsp
+
+    async def stream(self, *, url: str, settings: Any, logger: Any, stopper: Any = None, timeout: Any = None, **_: Any) -> Any:
+        import urllib.parse
+        q = urllib.parse.parse_qs(urllib.parse.urlparse(url).query)
+        since = int(q['resourceVersion'][0]) if 'resourceVersion' in q else 0
+        self.served.append(f'WATCH>{since}')
+        while True:
+            if self.pending_fault is not None:
+                kind, self.pending_fault = self.pending_fault, None
+                self.served.append(kind)
+                if kind == '410':
+                    yield {'type': 'ERROR', 'object': {'kind': 'Status', 'code': 410, 'reason': 'Expired', 'message': 'too old'}}
+                return
+            fresh = [ev for rv, ev in self.log if rv > since]
+            if fresh:
+                for ev in fresh:
+                    since = int(ev['object']['metadata']['resourceVersion'])
+                    self.served.append(f"{ev['type']}:{ev['object']['metadata']['uid']}")
+                    yield copy.deepcopy(ev)
+                continue
+            self.wake.clear()
+            await self.wake.wait()
+
+
+def gen_api_spec(r: Any, hi: int) -> dict:
+    """The stream comes from the REAL watching.infinite_watch / continuous_watch over FakeApi."""
+    spec = gen_stream_spec(r, hi)
+    spec['api'] = True
+    for proc in spec['processes']:
+        proc['list_failures'] = r.choice([0, 0, 1, 2, 3])
+        proc['fail_kind'] = r.choice(['connection', 'timeout', '429'])
+        for ph in proc['phases'][1:]:
+            if ph['a'] == 'run' and r.random() < 0.6:
+                ph['a'] = 'disconnect'
+    return spec
+
+
 def gen_stream_spec(r: Any, hi: int) -> dict:
     decls = [{'kind': 'resume', 'fn': 'fn0', 'id': 'h0', 'sel': False, 'script': ['ok'], 'slow': r.choice([0, 0.25, 0.25])}]
     if r.random() < 0.4:
@@ -987,9 +1066,11 @@ def gen_stream_spec(r: Any, hi: int) -> dict:
 
 
 def run_stream_history(ctx: fw.Ctx, env: Env, spec: dict, name: str) -> None:
-    from kopf._cogs.clients import watching
+    from kopf._cogs.clients import api as kapi, watching
     from kopf._core.reactor import queueing
     decls, uids = spec['decls'], spec['uids']
+    api_mode = bool(spec.get('api'))
+    orig_get, orig_stream = kapi.get, kapi.stream
     R = Registry(env, decls)
     W = World(env, R, uids, ctx.rng.__class__(0))
     for u in uids:
@@ -1006,13 +1087,18 @@ def run_stream_history(ctx: fw.Ctx, env: Env, spec: dict, name: str) -> None:
     try:
         with vloop.running(loop):
             for pi, proc in enumerate(spec['processes']):
-                stream: asyncio.Queue = asyncio.Queue()
+                stream: Any = FakeApi(W, uids, proc.get('fail_kind', 'connection')) if api_mode else asyncio.Queue()
                 W.stream = stream
-
-                async def infinite_watch(**_: Any) -> Any:
-                    while True:
-                        yield await stream.get()
-                watching.infinite_watch = infinite_watch
+                if api_mode:
+                    stream.list_failures = proc.get('list_failures', 0)
+                    kapi.get, kapi.stream = stream.get, stream.stream
+                    ctx.count('api_first_list_failures', f"{proc.get('list_failures', 0)}" +
+                              (f":{proc.get('fail_kind')}" if proc.get('list_failures') else ''))
+                else:
+                    async def infinite_watch(**_: Any) -> Any:
+                        while True:
+                            yield await stream.get()
+                    watching.infinite_watch = infinite_watch
                 settings = copy.copy(env.settings)
                 settings = env.kopf.OperatorSettings()
                 settings.posting.enabled = False
@@ -1047,9 +1133,20 @@ def run_stream_history(ctx: fw.Ctx, env: Env, spec: dict, name: str) -> None:
                         obj['spec']['x'] = f'edited-{W.rv}'
                     W.bump(obj)
                     put('MODIFIED', u)
-                for ph in proc['phases']:
-                    ctx.count('stream_phase', ph['a'] + ('+events-behind' if ph.get('behind') else ''))
-                    if ph['a'] == 'listing':
+                for phi, ph in enumerate(proc['phases']):
+                    ctx.count('api_phase' if api_mode else 'stream_phase', ph['a'] + ('+events-behind' if ph.get('behind') else ''))
+                    if ph['a'] == 'listing' and api_mode:
+                        # the real continuous_watch lists (at the start; again after ERROR 410); the writes land right after
+                        # the snapshot, so the watch that follows serves them at once
+                        stream.after_list = (lambda bs=ph['behind']: [third_party(b['what'], b['uid']) for b in bs])
+                        if phi > 0:
+                            stream.fault('410')
+                        loop.run_for(20)
+                    elif ph['a'] == 'disconnect':
+                        if api_mode:
+                            stream.fault('disconnect')
+                        loop.run_for(5)
+                    elif ph['a'] == 'listing':
                         for u in uids:
                             put(None, u)
                         stream.put_nowait(watching.Bookmark.LISTED)
@@ -1070,6 +1167,9 @@ def run_stream_history(ctx: fw.Ctx, env: Env, spec: dict, name: str) -> None:
                 W.stream = None
                 ctx.count('stream_worker_limit', str(proc['worker_limit']))
                 ctx.count('stream_processed_events', str(min(len(env.detects), 12)))
+                if api_mode:
+                    delivered = list(stream.served)
+                    ctx.count('api_lists_per_process', str(min(sum(1 for x in delivered if x.startswith('LIST:')), 4)))
                 summary.append({'process': pi, 'worker_limit': proc['worker_limit'], 'stream': delivered, 'owed': owed,
                                 'calls': [[c['ix'], c['uid'], c['reason'], c['outcome']] for c in calls]})
                 case = {'history': name, 'stream': spec, 'process': pi, 'runs': copy.deepcopy(summary)}
@@ -1095,6 +1195,7 @@ def run_stream_history(ctx: fw.Ctx, env: Env, spec: dict, name: str) -> None:
                     ctx.nontriv(['stream', spec, pi])
     finally:
         watching.infinite_watch = orig_watch
+        kapi.get, kapi.stream = orig_get, orig_stream
         W.stream = None
         vloop.close_loop(loop)
         env.world = None
@@ -1110,6 +1211,16 @@ def run_stream_histories(ctx: fw.Ctx, env: Env, n: int) -> None:
     run_stream_history(ctx, env, fixed, 'stream:fixed')
     for hi in range(n):
         run_stream_history(ctx, env, gen_stream_spec(r, hi), f'stream:{hi}')
+    # the same, with the stream produced by the real watching.infinite_watch / continuous_watch over a fake LIST + WATCH
+    fixed_api = {'api': True, 'decls': fixed['decls'], 'uids': ['uid-ga', 'uid-gb'], 'states': {'uid-ga': 'handled', 'uid-gb': 'handled'},
+                 'processes': [{'worker_limit': None, 'list_failures': 1, 'fail_kind': 'connection',
+                                'phases': [{'a': 'listing', 'behind': []}, {'a': 'listing', 'behind': [{'uid': 'uid-ga', 'what': 'status'}]}]},
+                               {'worker_limit': 1, 'list_failures': 0, 'fail_kind': 'timeout',
+                                'phases': [{'a': 'listing', 'behind': [{'uid': 'uid-gb', 'what': 'status'}]}, {'a': 'disconnect'},
+                                           {'a': 'edit', 'uid': 'uid-ga', 'settle': True}]}]}
+    run_stream_history(ctx, env, fixed_api, 'api:fixed')
+    for hi in range(n):
+        run_stream_history(ctx, env, gen_api_spec(r, hi), f'api:{hi}')
 
 
 # --------------------------------------------------------------------------------------------
